@@ -33,6 +33,9 @@ def run(ctx):
     ctx.rule("R06-6", "Job.pids stays in launch order (fg hands it to wait_fg_job, which takes pids.last() for the stage whose "
                       "status counts): crate-wide, the vector is only appended to and shortened by order-preserving "
                       "removal - no swap_remove / sort / reverse / rotate / swap / insert")
+    ctx.rule("R06-9", "the per-member stop marks are exact: Shell::mark_job_member_stopped changes pids_stopped only by "
+                      "insert(<its pid argument>), mark_job_member_continued only by remove(<its pid argument>) - no clear / "
+                      "retain / other key (the job is reported Stopped / Running from these marks)")
     ctx.rule("R06-8", "an event parked for a process stays parked until that process's job takes it: crate-wide, the four "
                       "event maps are changed only by insert (the reapers) and by remove of one pid (the pops) - no clear / "
                       "retain / drain / take / replace of a whole map.  (A `continued` parked next to a `stopped` for the "
@@ -40,6 +43,7 @@ def run(ctx):
                       "Stopped.)")
     for crate in ctx.crates:
         order_rule(ctx, crate)
+        member_marks_rule(ctx, crate)
         map_mutation_rule(ctx, crate)
         id_scan_rule(ctx, crate, "R06-7")
         lookup_rule(ctx, crate)
@@ -347,6 +351,44 @@ def stopped_rule(ctx, crate):
 ORDER_BREAKING = {"swap_remove", "sort", "sort_by", "sort_by_key", "sort_unstable", "sort_unstable_by", "sort_unstable_by_key",
                   "reverse", "rotate_left", "rotate_right", "swap", "insert", "dedup", "dedup_by_key", "select_nth_unstable"}
 ORDER_KEEPING = {"push", "remove", "retain", "drain", "pop", "truncate", "clear", "extend", "append"}
+
+
+SET_MUTATORS = {"insert", "remove", "clear", "retain", "drain", "extend", "take", "replace", "swap", "get_or_insert_with"}
+
+
+def member_marks_rule(ctx, crate):
+    n = 0
+    for name, want in (("mark_job_member_stopped", "insert"), ("mark_job_member_continued", "remove")):
+        b = crate.fn("shell::Shell::" + name)
+        if b is None:
+            continue
+        ctx.analysed(b)
+        pid = None
+        for l in range(1, b.arg_count + 1):
+            if b.names.get(l) == "pid":
+                pid = l
+        if pid is None:
+            ints = [l for l in range(1, b.arg_count + 1) if b.locals[l]["ty"] == "i32"]
+            pid = ints[0] if ints else None
+        muts = []
+        for bb, t, c in b.calls():
+            ls = last_seg(c)
+            if ls in SET_MUTATORS and "HashSet" in c and b.call_args(bb) and any(
+                    flow.is_field_named(x, "pids_stopped") for x in mir.subexprs(b.expand_vars(strip_sites(b.call_args(bb)[0])))):
+                a = b.call_args(bb)
+                arg = mir.peel(b.expand_vars(strip_sites(a[1]))) if len(a) > 1 else None
+                exact = ls == want and arg is not None and arg[0] == "param" and arg[1] == pid
+                muts.append((bb, ls, exact))
+        n += 1
+        ok = len(muts) == 1 and muts[0][2]
+        bad = [m for m in muts if not m[2]]
+        ctx.ob("R06-9", b.path, "pids_stopped is changed only by %s(pid)" % want, ok,
+               key="R06-9|%s|exact-mark" % b.path, where=b.loc((bad or muts or [(0,)])[0][0]), crate=crate.kind,
+               detail=None if ok else ("no %s(pid) on pids_stopped: the member's stop / continue is not recorded, the job's state "
+                                       "never follows it" % want if not muts else
+                                       "%s on pids_stopped%s: the marks of other members change too (or the pid's own mark does "
+                                       "not), the job is reported in the wrong state" % (bad[0][1], "" if bad[0][1] != want else " with another key")))
+    ctx.floor("R06-9", crate, "member-mark functions", n, 2)
 
 
 def order_rule(ctx, crate):
